@@ -107,7 +107,8 @@ def compare(before, after):
         lost = list((mb - ma).elements())[:3]
         new = list((ma - mb).elements())[:3]
         how = "lost" if lost and not new else "added" if new and not lost else "altered"
-        fails.append(("comment-changed", how, f"comments lost {lost} new {new}", "comment"))
+        marker = (new or lost)[0][:2]
+        fails.append(("comment-changed", how, f"comments lost {lost} new {new}", "comment:" + marker))
     if ob != oa:
         lost = sorted((ob - oa).elements())[:5]
         new = sorted((oa - ob).elements())[:5]
@@ -123,7 +124,7 @@ class C14(Check):
         "Domain: rules=layout (LT01-LT15) with a layout configuration: pinned slice of the fixture corpus of every "
         "dialect x 6 fixed configurations (leading commas, trailing operators, tab indent, implicit indents, indented "
         "joins/CTEs + trailing_comments=after, line length 40/50/60); generated: fixtures (half mutated, parsable or "
-        "not) and G-sql queries with layout noise and comments x Hypothesis-drawn configuration (comma / binary / "
+        "not) and G-sql queries with layout noise and comments (also in the middle of clauses) x Hypothesis-drawn configuration (comma / binary / "
         "comparison operator line position, indent unit, tab size, indented_* switches, implicit_indents, "
         "trailing_comments, max_line_length 40-120, LT05/LT09/LT15 options). Oracle: input and output are lexed with "
         "the dialect lexer; texts of tokens that are not whitespace/newline/comment are identical in order; multiset "
@@ -153,7 +154,7 @@ class C14(Check):
                 yield c
 
     def strategy(self, tier):
-        base = fixlib.fix_case(tier=tier, rules=st.just("layout"), gsql_features={"comments": True})
+        base = fixlib.fix_case(tier=tier, rules=st.just("layout"), gsql_features={"comments": True}, comments_inside=True)
         return st.tuples(base, layout_config()).map(lambda t: dict(t[0], rule_configs=t[1]))
 
     def examples(self, tier):
